@@ -17,6 +17,15 @@ COMMON_NOTE = ("Trusted: Coq 8.16.1 kernel (full .vo build, vm_compute, no nativ
 
 # id -> (technique, level text, extra note, design ref)   -- only properties whose check is built and passes
 CLAIMED = {
+    "C11": ("Rocq proof about a faithful model of parse_schema: full names per the spec's namespace rules, references denote table entries with that name, every rejection kind of the statement (exact error at the node and 'never accepted at any depth'), acceptance of every valid_raw schema; model vs fastavro.parse_schema on generated valid and singly-mutated schemas",
+            "Theorems (coq/props/C11.v, ~39): C11_fullnames, C11_refs/C11_refs_denote, C11_rejects_* (undefined reference, duplicate name incl. top-level unions, missing name, malformed/duplicate symbol, "
+            "enum default, default of wrong JSON type for primitives / dict forms / unions / references, decimal precision/scale), C11_accepts (valid_raw => accepted, no size bound). "
+            "Tie: accept / SchemaParseException / UnknownType(name) / other, canonical form, table keys and the parsed output key by key vs the model; SF_schema source facts.",
+            "Known finding K1 (numeric strings accepted as float defaults) is reported as KNOWN-FINDING. expand=True and _ignore_default_error are not modelled.", "§3 C11"),
+    "C13": ("Rocq proof: canonical form of the parsed schema = the specification's transformation applied to the raw JSON (C13_spec), invariance under the inductive closure of cosmetic edits, JSON-level fixed point; model and independent pcf vs to_parsing_canonical_form incl. Apache vectors",
+            "Theorems (coq/props/C13.v): C13_spec (all simple_raw schemas incl. top-level unions), C13_cosmetic (+ instances), C13_fixed_point_json, C13_fixed_point_partial, 11 Apache vectors by vm_compute. "
+            "Tie: canon.parse (model) = pcf (model) = implementation on generated schemas and cosmetic rewrites; fixed point through json.loads.",
+            "Known finding K2 (nested null-namespace type: the spec's canonical form is not a fixed point) is reported as KNOWN-FINDING. C13_same_encoding is decided by the correspondence of C12/C01, not proved.", "§3 C13"),
     "C14": ("Rocq proof: table-driven CRC-64-AVRO loop = bit-serial spec for all byte strings; correspondence by vm_compute vs fastavro.schema.fingerprint",
             "Theorems (coq/props/C14.v): the fp_table entries are 8 division steps (finite, vm_compute), the table-driven loop equals the "
             "specification's bit-serial Rabin fingerprint for every byte list of any length, 64-bit state invariant, empty text = seed, "
@@ -77,6 +86,12 @@ CLAIMED = {
             "Theorems (coq/props/C18.v): C18_interleaving for any number of threads/steps, simulation, footprints soundness, refuted witness for the old shared-context read_decimal. "
             "Tie: footprint per operation measured on the implementation, forced enumeration of all interleavings at the shared-access points (2-3 threads), stress run.",
             "PARTIAL: bytecode-level atomicity under the GIL and thread safety of C libraries on distinct objects are assumed (runtime behaviour the model cannot exhibit).", "§3 C18"),
+
+    "C20": ("Rocq proof: for every wf schema (recursive ones included) and EVERY random stream a generated value validates (never False, never an exception), count = n, readable ranges of logical leaves, termination for ranked schemas and refutation for recursion through arrays/maps; generate_many replayed on recorded draws vs the model + validate/write/read predicate",
+            "Theorems (coq/props/C20.v, 18): C20_count, C20_generate_one, C20_conforms (+_many, _ranked, _fuel), C20_leaf_shape, C20_readable_*, C20_terminates_ranked, C20_refuted_rec_array. "
+            "Tie: fastavro.utils.random / uuid replaced from outside by recording proxies; values of generate_many compared with the model's gen on the recorded stream; every value "
+            "validated, written (schemaless + container) and read back.",
+            "Known findings F12 (RecursionError through arrays/maps) and K3 (str filed under a string-uuid branch cannot be read back) are reported as KNOWN-FINDING. 'accepted by writers and read back' is decided per case by the harness (needs C10 and C01 composed).", "§3 C20"),
 }
 
 NOT_YET = "check not built yet in this round (model/theorems under construction; see DESIGN.md §12 build order)"
